@@ -392,12 +392,15 @@ class P(Prop):
         (M, "TV.C02.operate_show_value", "T3: composition - parse the printed statement with makeRPN's table, run the machine, purge: value = tree semantics, track unchanged"),
         (M, "TV.C02.makeRPN_chars_show", "T2': character-level makeRPN (the definition the driver runs, fuel = string length) returns the postfix form of every printed tree with plain atoms"),
         (M, "TV.C02.operate_string_value", "T3': from the rewritten string '#output=e' on (makeRPN on characters, __double_prime, stack machine, fetch, purge) operate returns the tree semantics and leaves the track as it was"),
+        (M, "TV.C02.tree_semantics_pointwise", "T5: under the laws x+s=s+x, x*s=s*x, x*(1/s)=x/s, (1/x)*s=s/x the evaluator's tree semantics (literal folding, s+/sr- tables) equals evaluation observation by observation with numbers as constant vectors"),
+        (M, "TV.C02.operate_string_pointwise", "end to end on the model: operate on the rewritten string '#output=e' returns the pointwise value of the tree and leaves the track unchanged"),
         (M, "TV.C02.operator_objects_agree", "T4: operator objects applied directly return the tree semantics of the one-node expression (a.b, a.number, number.a, f{a})"),
     ]
     partial = ["operate_assign_coordinate_partial: proved for right-hand sides whose value is a vector; a pure number on the right of x=/y=/z= raises KeyError in the code (known finding coordinate-assigned-constant)"]
     open_statements = [
         "the character-level rewriting chain (preprocess: replace chains, reflexive operators, unary signs, f( -> f@(, '#output = ' prefix with its spaces) is tied to the theorems by the correspondence only (streams str/expr), not by a theorem; the theorems start from the rewritten string",
-        "tree semantics = ordinary arithmetic: the node functions are the operator classes as coded (x/number is x*(1/number), Divider gives NaN on a zero denominator); their agreement with exact real arithmetic is sampled by the transfer check against the independent Python oracle, not proved",
+        "floating point: the laws of T5 (x*(1/s)=x/s, (1/x)*s=s/x) hold in exact arithmetic (shown for rationals with NaN) but only up to rounding for IEEE doubles; agreement of the computed doubles with ordinary arithmetic is sampled by the transfer check (rel. 1e-9) against the independent Python oracle",
+        "the definitions of the functions (I D D2 ABS SQRT SUM AVG MIN MAX MEDIAN MAD STD) are taken as coded in both denoteM and denote; their agreement with the documented formulas is checked by the Python oracle (statistics.median, pstdev, ...) in the transfer check, not proved",
         "error propagation (when the tree semantics is an error the machine raises the same error) is exercised by the correspondence, not proved",
     ]
     modelled = ("Track.__evaluate (replace chain, __specialOpChar, __convertReflexOperator, __unaryOp, f( -> f@( loops, #output prefix), "
